@@ -94,6 +94,77 @@ Qed.
 
 End Observed.
 
+(* ---- terms and votes along a history (C05 on observations) ---- *)
+
+Lemma step_term_vote V s s' n : step V s s' ->
+  cur (st s n) <= cur (st s' n) /\
+  (cur (st s' n) = cur (st s n) -> vote (st s n) <> 0 -> vote (st s' n) = vote (st s n)).
+Proof.
+  intros Hstep. destruct Hstep; unfold_do; simpl;
+    try (match goal with |- context [upd _ ?x _ n] => upd_case n x end); simpl;
+    try (split; [lia | intros; reflexivity]);
+    (split; [lia|]); intros E Hv;
+    repeat match goal with
+           | H : _ \/ _ |- _ => destruct H
+           | H : _ /\ _ |- _ => destruct H
+           | |- context [N.ltb ?a ?b] => destruct (N.ltb_spec a b)
+           end; try lia; try congruence; try reflexivity.
+Qed.
+
+Lemma steps_term_vote V s s' n : steps V s s' ->
+  cur (st s n) <= cur (st s' n) /\
+  (cur (st s' n) = cur (st s n) -> vote (st s n) <> 0 -> vote (st s' n) = vote (st s n)).
+Proof.
+  intros Hs. induction Hs as [|s s' s'' _ [IH1 IH2] Hst]; [split; [lia | intros; reflexivity]|].
+  destruct (step_term_vote V s' s'' n Hst) as [S1 S2]. split; [lia|].
+  intros E Hv. assert (E1 : cur (st s' n) = cur (st s n)) by lia.
+  rewrite <- (IH2 E1 Hv). apply S2; [lia|]. rewrite (IH2 E1 Hv). exact Hv.
+Qed.
+
+Lemma run_from_steps V tr : forall k s s', run_from V k s tr = ROk s' -> steps V s s'.
+Proof.
+  induction tr as [|[e os] r IH]; intros k s s' H; simpl in H.
+  - inversion H; subst. apply steps_refl.
+  - destruct (explain V s e os) as [s1|] eqn:E; [|discriminate].
+    destruct (explain_sound V _ _ _ _ E) as [Hs _].
+    exact (steps_trans V _ _ _ Hs (IH _ _ _ H)).
+Qed.
+
+Lemma run_from_split V tr1 : forall tr2 k s s', run_from V k s (tr1 ++ tr2) = ROk s' ->
+  exists s1, run_from V k s tr1 = ROk s1 /\ run_from V (k + length tr1) s1 tr2 = ROk s'.
+Proof.
+  induction tr1 as [|[e os] r IH]; intros tr2 k s s' H; simpl in *.
+  - exists s. rewrite Nat.add_0_r. split; [reflexivity | exact H].
+  - destruct (explain V s e os) as [s1|]; [|discriminate].
+    destruct (IH _ _ _ _ H) as [s2 [H1 H2]]. exists s2. split; [exact H1|].
+    replace (k + S (length r))%nat with (S k + length r)%nat by lia. exact H2.
+Qed.
+
+Lemma run_from_last_obs V tr e os : forall k s s', run_from V k s (tr ++ [(e, os)]) = ROk s' -> check_obs s' os = true.
+Proof.
+  induction tr as [|[e0 os0] r IH]; intros k s s' H; simpl in H.
+  - destruct (explain V s e os) as [s1|] eqn:E; [|discriminate]. inversion H; subst.
+    exact (proj2 (explain_sound V _ _ _ _ E)).
+  - destruct (explain V s e0 os0) as [s1|]; [|discriminate]. exact (IH _ _ _ H).
+Qed.
+
+(* between two observations of one node in an accepted history the term never decreases, and within a
+   term a vote once cast stays (crashes and restarts between the two observations included) *)
+Theorem observed_term_vote_monotone V tr1 e1 os1 tr2 e2 os2 s2 n o1 o2 :
+  run V ((tr1 ++ [(e1, os1)]) ++ tr2 ++ [(e2, os2)]) = ROk s2 ->
+  In (n, o1) os1 -> In (n, o2) os2 ->
+  o_cur o1 <= o_cur o2 /\ (o_cur o2 = o_cur o1 -> o_vote o1 <> 0 -> o_vote o2 = o_vote o1).
+Proof.
+  intros H I1 I2. unfold run in H.
+  destruct (run_from_split V _ _ _ _ _ H) as [s1 [H1 H2]].
+  pose proof (run_from_last_obs V _ _ _ _ _ _ H1) as O1.
+  pose proof (run_from_last_obs V _ _ _ _ _ _ H2) as O2.
+  pose proof (run_from_steps V _ _ _ _ H2) as Hs.
+  destruct (check_obs_in _ _ _ _ O1 I1) as (C1 & V1 & _).
+  destruct (check_obs_in _ _ _ _ O2 I2) as (C2 & V2 & _).
+  rewrite <- C1, <- C2, <- V1, <- V2. exact (steps_term_vote V s1 s2 n Hs).
+Qed.
+
 Theorem accepted_history_is_a_run : forall V tr s, run V tr = ROk s -> Reachable V s.
 Proof. exact run_sound. Qed.
 
